@@ -216,11 +216,26 @@ def wl_counting(ctx, rng, case):
 
 # ------------------------------------------------------------------------------- cuckoo
 
+def wl_cuckoo_failing(ctx, rng, case):
+    """aimed at FAILED expansions / failed inserts (tiny tables, 1-2 swaps): after the CuckooFilterFullError every counter must still have its meaning"""
+    _cuckoo_run(ctx, rng, case, failing=True)
+
+
 def wl_cuckoo(ctx, rng, case):
+    _cuckoo_run(ctx, rng, case, failing=False)
+
+
+def _cuckoo_run(ctx, rng, case, failing):
     import probables as P
 
     cfg = ck.gen_cfg(rng)
-    keys = ck.gen_keys(rng, cfg, rng.randint(3, 10))
+    if failing:
+        cfg.counting = rng.random() < 0.7
+        cfg.auto_expand = rng.random() < 0.8
+        cfg.capacity = rng.choice([1, 2, 2, 3, 4])
+        cfg.bucket_size = rng.choice([1, 1, 2])
+        cfg.max_swaps = rng.choice([1, 1, 2])
+    keys = ck.gen_keys(rng, cfg, rng.randint(3, 10) if not failing else rng.randint(5, 14))
     if len(keys) < 2:
         return
     ops = []
@@ -277,6 +292,7 @@ def wl_cuckoo(ctx, rng, case):
     ctx.count("cuckoo.capacity_changes", stats["capacity_changes"])
     ctx.count("cuckoo.reloads", stats["reloads"])
     ctx.count("cuckoo.resolutions_executed", ex.runs + ex.sampled)
+    ctx.count("cuckoo.failed_expansions_or_inserts", stats["failed_adds"] + stats["failed_expansions"])
     case.nontrivial = ex.decisions > 0 or stats["capacity_changes"] > 0
 
 
@@ -371,11 +387,12 @@ PROP = Prop(
         Workload("expanding", wl_expanding, quick=300, thorough=20000),
         Workload("counting", wl_counting, quick=600, thorough=120000),
         Workload("cuckoo", wl_cuckoo, quick=250, thorough=6000),
+        Workload("cuckoo_failing", wl_cuckoo_failing, quick=200, thorough=5000),
         Workload("quotient", wl_quotient, quick=400, thorough=90000),
     ],
     assumptions=["statistics formulas evaluated in 60-digit decimal arithmetic; either neighbour accepted when the exact value is within 1e-9 of an integer; "
                  "a completely set array (documented sentinel -1) is outside the formula and skipped",
                  "quotient-filter histories stop before entering the region of the known finding K1 (listed under C04)"],
     required=["counter_checks", "statistics_checks", "set_operation_count_checks", "ondisk_reopens", "joins", "cuckoo.decisions_taken", "cuckoo.capacity_changes",
-              "cuckoo.reloads", "quotient.histories_with_removals", "quotient.merges", "aliasing_checks"],
+              "cuckoo.reloads", "cuckoo.failed_expansions_or_inserts", "quotient.histories_with_removals", "quotient.merges", "aliasing_checks"],
 )
